@@ -232,7 +232,16 @@ func init() {
 	Impl("c19.uac", func(a []Val) Val { return S(ldap_attributes.UserAccountControl(a[0].Uint()).String()) })
 	Impl("c19.ckiflags", func(a []Val) Val {
 		var kf key.CustomKeyInformationFlags
+		dirty(&kf)
+		// a decomposition already handed out (a copy of the struct kept by the caller) is not rewritten by the
+		// next parse into the same receiver
+		kf.FromBytes(byte(^a[0].Uint()))
+		kept := kf
+		before := strings.Join(kept.Name, "|")
 		kf.FromBytes(byte(a[0].Uint()))
+		if strings.Join(kept.Name, "|") != before {
+			panic("names of an earlier decomposition changed")
+		}
 		var l []Val
 		for _, n := range kf.Name {
 			l = append(l, S(n))
@@ -432,6 +441,22 @@ func genC19(c *Ctx) {
 		for j := i + 1; j < 32; j++ {
 			words = append(words, 1<<i|1<<j)
 		}
+	}
+	// every triple of bits (4960 words), and sparse random words (2..6 bits set): a word that is EXACTLY a
+	// combination of a few named flags is what a table of precomputed answers would be keyed on
+	for i := uint(0); i < 32; i++ {
+		for j := i + 1; j < 32; j++ {
+			for k := j + 1; k < 32; k++ {
+				words = append(words, 1<<i|1<<j|1<<k)
+			}
+		}
+	}
+	for i := 0; i < c.N(2000, 40000); i++ {
+		w := uint64(0)
+		for n := 2 + r.Intn(5); n > 0; n-- {
+			w |= 1 << uint(r.Intn(32))
+		}
+		words = append(words, w)
 	}
 	for i := 0; i < c.N(500, 20000); i++ {
 		words = append(words, r.U64()&0xffffffff)
